@@ -39,15 +39,18 @@ def main(argv=None) -> int:
     try:
         repo = model.load_repo(model.REPO_ROOT)
         ctx = report.Ctx(prop, args.tier, seed, repo)
-        from . import selfcheck
+        from . import selftest
 
-        selfcheck.run_fixtures(prop)  # positive controls: every rule must fire on its seeded fixture
         mod.run(ctx)
         if args.tier == "thorough" and hasattr(mod, "run_thorough"):
             mod.run_thorough(ctx)
         if not ctx.obligations:
             raise model.AnalysisError("no rule instance was evaluated")
-        return report.finish(ctx, mod.META)
+        # two-way test of the rules on variants of the current tree (positive controls; twins in the thorough tier)
+        facts = selftest.run(prop, args.tier, mod, seed)
+        meta = dict(mod.META)
+        meta["coverage_extra"] = {"selftest": facts}
+        return report.finish(ctx, meta)
     except model.AnalysisError as exc:
         print(f"ANALYSIS-ERROR property={prop} {exc}")
         return 2
